@@ -123,6 +123,7 @@ class CoroVal:
     kwargs: Dict[str, Any]
     awaited: bool = False
     oid: int = field(default_factory=lambda: next(_ids))
+    task_ctx: Any = None  # context snapshot when the coroutine was wrapped in a task
 
     def __repr__(self) -> str:
         return f"<coro {getattr(self.func.fn, 'qualname', '?')}#{self.oid}>"
